@@ -19,6 +19,14 @@ Oracles (mcphot/ref/psfref.py, no photutils code):
                  polynomial data reproduced between samples
   gridded-*      GriddedPSFModel == bilinear blend of the stored arrays at interior samples
   history-*      last evaluation bit-identical to a fresh model's
+  layout-*       evaluation is POINTWISE: for every model class (8 functional, ImagePSF, GriddedPSFModel), the output for
+                 coordinate arguments of any shape / memory layout / order / container (mcphot/ref/c13_layouts.py: 1-D lists
+                 in any order, 2-D meshes in the image layout and NOT in the image layout (indexing='ij', transposed views,
+                 scattered points in 2-D arrays, a mesh whose interior is shuffled, (1, n) / (n, 1)), strided / flipped / Fortran / zero-stride views, x and y
+                 of different broadcastable shapes, scalars mixed with arrays, 3-D arrays, nested lists, integer dtypes)
+                 has the broadcast shape of the arguments and every element equals the value model(x, y) returns for that
+                 single point given as two Python floats -- so that the sums / integrals / blends verified above on the
+                 image layout hold for every evaluation grid
 """
 import copy as _copy
 import itertools
@@ -50,7 +58,17 @@ RULE = ('full Cartesian products: (model class x width(s) x theta x sub-pixel ce
         'of the flux (functional models) / the checked sample set is non-empty and at least two reference arrays '
         'have non-zero weight or the position is clamped (gridded); a history is non-trivial when it contains an '
         'evaluation before its last operation. States of the BFS are digests of the complete instance __dict__ '
-        '(parameters, data, every cached spline with its coefficients).')
+        '(parameters, data, every cached spline with its coefficients). '
+        'Pointwise-evaluation part ("layout"): (model configuration: the 8 functional classes x width(s) x theta x centre x '
+        '{plain flux, flux with a unit}; ImagePSF: data shape x oversampling x origin x (x_0, y_0) x fill_value; '
+        'GriddedPSFModel: grid layout x input order x oversampling x one position of every kind x fill_value) x (3 windows of '
+        'points: 5 columns x 3 rows, 3 x 4 and square 4 x 4; integer pixels and fractional coordinates scaled with the model '
+        'width for the functional models; interior samples, between samples and straddling the array edge (fill_value '
+        'region) for ImagePSF / GriddedPSFModel) x {model(x, y), model.evaluate(x, y, *parameters)} x EVERY coordinate-array '
+        'layout of mcphot/ref/c13_layouts.py (40 layouts in 7 groups: 1-D, 2-D-xy-mesh, 2-D-not-xy-mesh, broadcast, 3-D, list, '
+        'integer-dtype; the 4 integer-dtype layouts only on windows with integer coordinates; evaluate() only with layouts '
+        'whose two arguments are numpy arrays); a layout case is non-trivial when the single-point reference values on its '
+        'window are not all equal.')
 ASSUMPTIONS = ['numpy, math, scipy.special.erf/j0/j1 and numpy Gauss-Legendre nodes are trusted',
                'scipy RectBivariateSpline (kx=ky=3, s=0) is trusted to interpolate its knots and to reproduce '
                'bicubic polynomials; it is never used as the oracle',
@@ -58,6 +76,11 @@ ASSUMPTIONS = ['numpy, math, scipy.special.erf/j0/j1 and numpy Gauss-Legendre no
                'profile (closed-form encircled energy); the numerical part is executed on the real code',
                'an astropy Model instance behaves as a function of its class and its __dict__ (state digest)',
                'widths are taken from a finite alphabet >= 0.2 px; defects between alphabet points are outside the bound',
+               'pointwise evaluation: the reference value of a point is model(float x, float y) of the real code (its '
+               'correctness is what the sum / integral / sample / blend clauses establish); coordinate layouts outside the 40 '
+               'enumerated ones (e.g. masked arrays, Quantity coordinates, float32 / float16 coordinates whose arithmetic '
+               'precision the property does not state, arrays of more than 3 dimensions, windows larger than 5 x 4 points) are '
+               'outside the bound; GriddedPSFModel documents a ValueError for more than 2 dimensions (counted as skipped)',
                'evaluation histories visit every cell of grids up to 3x5 / 5x3 (thorough 3x6 / 6x4) rows x columns: a '
                'per-cell or per-grid-point bookkeeping error that needs a larger grid, more than 3 (thorough 4) '
                'evaluations, or two particular positions inside cells that the alphabet does not contain is outside the bound']
@@ -862,6 +885,166 @@ def check_gridded(acc, case, seed):
 
 
 # --------------------------------------------------------------------------
+# pointwise evaluation: the value at a coordinate pair does not depend on the shape / memory layout / order / container
+# in which the coordinates arrive (mcphot/ref/c13_layouts.py)
+# --------------------------------------------------------------------------
+def _scale(name, params):
+    if name == 'MoffatPSF':
+        return params['alpha']
+    if name == 'AiryDiskPSF':
+        return params['radius']
+    return sigmas(name, params)[1]
+
+
+def layout_model(case, seed):
+    """(model, site name, flux value, windows {name: (xs, ys)}, positional evaluate() arguments)."""
+    kind = case['kind']
+    if kind == 'functional':
+        name, params, centre = case['model'], case['params'], case['centre']
+        m = make_model(name, params, centre, case['flux'])
+        cx, cy = centre
+        sc = max(_scale(name, params), 0.3)
+        win = {'pix5x3': (round(cx) + np.arange(-2.0, 3.0), round(cy) + np.arange(-1.0, 2.0)),
+               'frac3x4': (cx + sc * np.array([-1.3, 0.2, 0.9]) + 0.0131, cy + 0.83 * sc * np.array([-1.1, -0.4, 0.5, 1.6]) - 0.0077),
+               'frac4x4': (cx + sc * np.array([-1.7, -0.6, 0.3, 1.1]) + 0.0131,
+                           cy + 0.83 * sc * np.array([-1.2, -0.1, 0.7, 1.9]) - 0.0077)}
+        # what astropy / the fitters hand to evaluate(): the raw value as a numpy float64, or the Quantity where the
+        # parameter carries a unit
+        args = []
+        for pn in m.param_names:
+            par = getattr(m, pn)
+            args.append(par.quantity if par.unit is not None else np.float64(par.value))
+        return m, name, _fluxval(case['flux']), win, args
+    shape = tuple(case['shape'])
+    ny, nx = shape
+    ovy, ovx = _ovpair(case['ov'])
+    fill = _fill(case['fill'])
+    flux = case['flux']
+    if kind == 'image':
+        from photutils.psf import ImagePSF
+        x0, y0 = case['x0'], case['y0']
+        origin = case['origin']
+        data, _ = image_data(shape, 'generic', seed)
+        m = ImagePSF(data, flux=flux, x_0=x0, y_0=y0, origin=None if origin is None else tuple(origin),
+                     oversampling=case['ov'] if np.isscalar(case['ov']) else tuple(case['ov']), fill_value=fill)
+        ox, oy = ((nx - 1) / 2.0, (ny - 1) / 2.0) if origin is None else origin
+        name = 'ImagePSF'
+    else:
+        x0, y0 = case['pos']
+        m, _ = make_gridded(case['layout'], case['order'], shape, case['ov'], seed, flux=flux, x_0=x0, y_0=y0, fill_value=fill)
+        ox, oy = (nx - 1) / 2.0, (ny - 1) / 2.0
+        name = 'GriddedPSFModel' + (':single-row-or-column' if grid_site(case['layout'], '') == 'single-row-or-column' else '')
+
+    def X(fi):
+        return x0 + (np.asarray(fi, dtype=float) - ox) / ovx
+
+    def Y(fj):
+        return y0 + (np.asarray(fj, dtype=float) - oy) / ovy
+    # index coordinates: interior samples / between the samples / straddling the array edge (fill_value region included)
+    win = {'samples5x3': (X([1, 2, 3, 4, 5]), Y([1, 2, 3])),
+           'between3x4': (X([0.5, 1.25, nx - 2.5]), Y([0.5, 1.5, 0.6 * (ny - 1), ny - 1.75])),
+           'straddle4x4': (X([-1.5, 0.3 * (nx - 1), nx - 1.6, nx + 0.75]), Y([-2.0, 0.7 * (ny - 1), 1.5, ny + 1.25]))}
+    return m, name, float(flux), win, [np.float64(flux), np.float64(x0), np.float64(y0)]
+
+
+def _strip(v):
+    if getattr(v, 'unit', None) is not None:
+        return np.asarray(v.value, dtype=float), str(v.unit)
+    return np.asarray(v, dtype=float), None
+
+
+LAYOUT_VIAS = ['call', 'evaluate']
+
+
+def check_layout(acc, case, seed):
+    """For every window x way of evaluating x coordinate-array layout: the output has the broadcast shape of the two
+    coordinate arguments and every element equals the value the model returns for that coordinate pair when it is
+    asked for that single point (two Python floats)."""
+    from ..ref import c13_layouts as LY
+    only = case.get('only')
+    try:
+        m, name, fv, windows, args = layout_model(case, seed)
+    except Exception as e:
+        acc.violation('raises', f'{case.get("model", case["kind"])}():{type(e).__name__}', case, repr(e), 'a model')
+        acc.case(nontrivial=False)
+        return
+    want_unit = case['flux'][0] if isinstance(case.get('flux'), (list, tuple)) else None
+    reported = set()
+    for wname, (xs, ys) in windows.items():
+        if only and only[0] != wname:
+            continue
+        # reference: one point at a time
+        ref = np.empty((len(ys), len(xs)))
+        try:
+            for j, yv in enumerate(ys):
+                for i, xv in enumerate(xs):
+                    r, _ = _strip(m(float(xv), float(yv)))
+                    if r.size != 1:
+                        raise ValueError(f'model(float, float) returned shape {r.shape}')
+                    ref[j, i] = float(r.reshape(()))
+        except Exception as e:
+            acc.violation('layout-raises', f'{name}:scalar:{type(e).__name__}', dict(case, only=[wname, 'call', 'scalar']), repr(e), 'a value')
+            acc.case(nontrivial=False)
+            continue
+        peak = float(np.nanmax(np.abs(ref))) if np.isfinite(ref).any() else 0.0
+        finite = ref[np.isfinite(ref)]
+        nontrivial = bool(finite.size and np.ptp(finite) > 0)
+        # The layouts change neither the operations nor their operands, only the loop (contiguous / strided / scalar)
+        # numpy runs them in; SIMD and scalar loops of exp / erf may differ in the last place: 1 ulp = 1.1e-16 relative
+        # for the analytic profiles and the splines, 2.2e-16 * flux absolute per erf value for the PRFs.  rtol 1e-13 and
+        # atol 1e-15 * max(flux, peak) leave x100 over that; measured on the unchanged tree (seeds 0-2): bit-identical.
+        atol = 1e-15 * max(abs(fv), peak)
+        for via in LAYOUT_VIAS:
+            if only and only[1] != via:
+                continue
+            for lname, group, fn in LY.applicable(xs, ys):
+                if only and only[2] != lname:
+                    continue
+                X, Y, I, J, shape = LY.realise(fn, xs, ys)
+                if via == 'evaluate' and not (isinstance(X, np.ndarray) and isinstance(Y, np.ndarray)):
+                    continue          # evaluate() is documented for arrays; lists and scalars are converted by __call__
+                c2 = dict(case, only=[wname, via, lname])
+                site = f'{name}:{group}'
+                try:
+                    with warnings.catch_warnings():
+                        warnings.simplefilter('ignore')
+                        v, unit = _strip(m(X, Y) if via == 'call' else m.evaluate(X, Y, *args))
+                except Exception as e:
+                    if isinstance(e, ValueError) and 'must be 1D or 2D' in str(e) and len(shape) > 2:
+                        acc.skip(f'{name.split(":")[0]}: documented validation error "{e}" for coordinate arrays of more than 2 dimensions')
+                        continue
+                    acc.case(nontrivial=False)
+                    k = ('raises', site, type(e).__name__)
+                    if k not in reported:
+                        reported.add(k)
+                        acc.violation('layout-raises', f'{site}:{type(e).__name__}', c2, repr(e), f'values of shape {shape}')
+                    continue
+                acc.case(nontrivial=nontrivial, sample=c2 if acc.evaluations % 20011 == 3 else None)
+                want = ref[J, I]
+                if v.shape != shape:
+                    if ('shape', site) not in reported:
+                        reported.add(('shape', site))
+                        acc.violation('layout-shape', site, c2, list(v.shape), list(shape),
+                                      f'x has shape {np.shape(X)}, y has shape {np.shape(Y)}: the output must have their broadcast shape')
+                    continue
+                err = np.abs(v - want)
+                tol = 1e-13 * np.abs(want) + atol
+                ok = (err <= tol) | (np.isnan(v) & np.isnan(want)) | (v == want)
+                _track('layout-pointwise', np.where(ok & ~np.isfinite(err), 0.0, np.where(np.isfinite(err), err, np.inf)) / np.where(tol > 0, tol, 1.0))
+                if want_unit is not None and via == 'call' and unit != want_unit and ('unit', site) not in reported:
+                    reported.add(('unit', site))
+                    acc.violation('flux-unit', site, c2, unit, want_unit, 'output does not carry the flux unit')
+                if not ok.all() and ('value', site) not in reported:
+                    reported.add(('value', site))
+                    k = tuple(int(t) for t in np.unravel_index(int(np.argmax(np.where(ok, -1.0, np.where(np.isfinite(err), err, np.inf)))), ok.shape))
+                    acc.violation('layout-pointwise', site, c2, float(v[k]), float(want[k]),
+                                  f'window {wname}, layout {lname} via {via}: output element {list(k)} belongs to the point '
+                                  f'(x, y) = ({float(xs[I[k]])!r}, {float(ys[J[k]])!r}); model(x, y) for that single point gives the '
+                                  f'expected value; {int((~ok).sum())} of {ok.size} elements differ')
+        acc.outcome(round(float(np.nansum(ref)) / (fv or 1.0), 9))
+
+
+# --------------------------------------------------------------------------
 # evaluation-history exploration (shape A)
 # --------------------------------------------------------------------------
 HIST_ROOTS = {
@@ -1275,9 +1458,55 @@ def gridded_cases(tier, seed):
                                    'kind': kind, 'pos': list(pos), 'flux': flux, 'fill': fill}
 
 
+def layout_cases(tier, seed):
+    """Model alphabet of the pointwise-evaluation part (every case is then multiplied by window x via x layout)."""
+    A = alphabets(tier, seed)
+    W, TH = A['width'], A['theta']
+    thorough = tier == 'thorough'
+    fluxes = [3.7, ['Jy', 2.5]]
+    for name in PRF_CLASSES + PSF_CLASSES:
+        if name in ('GaussianPRF', 'GaussianPSF'):
+            plist = [{'x_fwhm': a, 'y_fwhm': b, 'theta': list(t)} for a in W for b in ((W[0], W[4], W[-2]) if thorough else (W[0], W[-2])) for t in TH]
+        elif name in ('CircularGaussianPRF', 'CircularGaussianPSF'):
+            plist = [{'fwhm': a} for a in W]
+        elif name == 'MoffatPSF':
+            plist = [{'alpha': a, 'beta': b} for a in W for b in A['beta']]
+        elif name == 'AiryDiskPSF':
+            plist = [{'radius': a} for a in W]
+        else:
+            plist = [{'sigma': a} for a in W]
+        for params in plist:
+            for c in A['centre_psf']:
+                for flux in fluxes:
+                    yield {'part': 'layout', 'kind': 'functional', 'model': name, 'params': params, 'centre': list(c), 'flux': flux}
+    for shape in [[7, 9], [8, 8]]:
+        ny, nx = shape
+        for ov in [1, 2, [2, 3]] + ([4, [3, 1]] if thorough else []):
+            for origin in [None, [2.0, 1.0]] + ([[0.5 * nx - 1.25, 0.5 * ny + 0.5]] if thorough else []):
+                for x0, y0 in [(0.0, 0.0), (10.3, -4.7)] + ([(-4.7, 0.25)] if thorough else []):
+                    for fill in (0.0, 'nan'):
+                        yield {'part': 'layout', 'kind': 'image', 'shape': shape, 'ov': ov, 'origin': origin, 'x0': x0, 'y0': y0,
+                               'flux': 2.5, 'fill': fill}
+    for layout in ['2x3', '3x3irr', '1x3', '3x5w'] + (['2x2', '3x1', '1x1', '5x3t'] if thorough else []):
+        allpos = grid_positions(layout, seed)
+        kinds = []
+        for k, _ in allpos:
+            if k not in kinds:
+                kinds.append(k)
+        for order in grid_orders(layout, 'quick')[:2]:
+            for shape in ([[7, 9], [8, 8]] if thorough else [[7, 9]]):
+                for ov in [1, [2, 3]]:
+                    for k in kinds:
+                        # the last position of each kind (generic fractions rather than the first grid point / cell centre)
+                        pos = [p for kk, p in allpos if kk == k][-1]
+                        for fill in (0.0, 'nan'):
+                            yield {'part': 'layout', 'kind': 'gridded', 'layout': layout, 'order': order, 'shape': shape, 'ov': ov,
+                                   'poskind': k, 'pos': list(pos), 'flux': 2.5, 'fill': fill}
+
+
 PARTS = {'prf': check_prf, 'psf': check_psf, 'halfmax': check_halfmax, 'linear': check_linear, 'pair': check_pair,
          'pixint': check_pixint}
-SHARDS = {'prf': 8, 'psf': 12, 'halfmax': 1, 'linear': 1, 'pair': 4, 'pixint': 8, 'image': 4, 'gridded': 6}
+SHARDS = {'prf': 8, 'psf': 12, 'halfmax': 1, 'linear': 1, 'pair': 4, 'pixint': 8, 'image': 4, 'gridded': 6, 'layout': 8}
 
 
 def hist_depth(root, tier):
@@ -1316,6 +1545,8 @@ def run_case(acc, case, seed):
         check_image(acc, case, seed)
     elif part == 'gridded':
         check_gridded(acc, case, seed)
+    elif part == 'layout':
+        check_layout(acc, case, seed)
     else:
         PARTS[part](acc, case)
 
@@ -1333,6 +1564,8 @@ def run_unit(unit, tier, seed):
         gen = image_cases(tier, seed)
     elif kind == 'gridded':
         gen = gridded_cases(tier, seed)
+    elif kind == 'layout':
+        gen = layout_cases(tier, seed)
     else:
         gen = functional_cases(kind, tier, seed)
     for i, case in enumerate(gen):
@@ -1367,6 +1600,12 @@ def describe(tier, seed):
         sizes[part] = sum(1 for _ in functional_cases(part, tier, seed))
     sizes['image'] = sum(1 for _ in image_cases(tier, seed))
     sizes['gridded'] = sum(1 for _ in gridded_cases(tier, seed))
+    from ..ref import c13_layouts as LY
+    lc = list(layout_cases(tier, seed))
+    sizes['layout'] = {'model_configurations': {k: sum(1 for c in lc if c['kind'] == k) for k in ('functional', 'image', 'gridded')},
+                       'windows_per_configuration': 3, 'ways_of_evaluating': LAYOUT_VIAS,
+                       'layouts': {g: [n for n, gg, _, _ in LY.LAYOUTS if gg == g] for g in LY.GROUPS},
+                       'integer_windows_only': [n for n, _, _, ints in LY.LAYOUTS if ints]}
     hs = {}
     for r in hist_roots(tier):
         h = HistSystem(r, tier, seed)
